@@ -102,7 +102,7 @@ def _worker_chunk(args):
     agg = {
         "runs": 0, "stats": collections.Counter(), "sigs": set(), "nontrivial_sigs": set(),
         "sim_seconds": 0.0, "violations": {}, "errors": [], "samples": [],
-        "nontrivial_runs": 0,
+        "nontrivial_runs": 0, "evals": 0,
     }
     for idx in indices:
         seed = run_seed_for(verif_seed, pid, tier, idx)
@@ -116,6 +116,7 @@ def _worker_chunk(args):
                 break
             continue
         agg["runs"] += 1
+        agg["evals"] += getattr(res, "extra_evaluations", 1)
         agg["stats"].update(res.stats)
         agg["sim_seconds"] += res.sim_seconds
         sig = int(res.signature[:15] or "0", 16)
@@ -123,6 +124,11 @@ def _worker_chunk(args):
         if res.nontrivial:
             agg["nontrivial_sigs"].add(sig)
             agg["nontrivial_runs"] += 1
+        for item, nt in getattr(res, "extra_distinct", ()):
+            hsig = derive_seed(repr(item)) >> 4
+            agg["sigs"].add(hsig)
+            if nt:
+                agg["nontrivial_sigs"].add(hsig)
         if res.sample is not None and len(agg["samples"]) < 2:
             agg["samples"].append(res.sample)
         for v in res.violations:
@@ -333,6 +339,7 @@ def cmd_check(pid, tier, runs_override=None, workers=None, verbose=True):
     sigs, nsigs = set(), set()
     sim_seconds = 0.0
     runs = 0
+    evals = 0
     nontrivial_runs = 0
     violations = {}
     errors = []
@@ -344,6 +351,7 @@ def cmd_check(pid, tier, runs_override=None, workers=None, verbose=True):
             for f in cf.as_completed(futs, timeout=wall_cap):
                 a = f.result()
                 runs += a["runs"]
+                evals += a["evals"]
                 agg_stats.update(a["stats"])
                 sigs |= a["sigs"]
                 nsigs |= a["nontrivial_sigs"]
@@ -386,7 +394,8 @@ def cmd_check(pid, tier, runs_override=None, workers=None, verbose=True):
     ev = {
         "property_id": pid, "tier": tier, "seed": verif_seed, "level": mod.LEVEL,
         "coverage": {
-            "evaluations": runs,
+            "evaluations": max(evals, runs),
+            "runs": runs,
             "distinct_nontrivial": len(nsigs),
             "distinct_signatures": len(sigs),
             "nontrivial_runs": nontrivial_runs,
